@@ -1,4 +1,5 @@
 import LayerModel.Lemmas.Rewards
+import LayerModel.Lemmas.DecBounds
 import LayerModel.Gen.Formulas
 
 /-!
@@ -55,6 +56,27 @@ theorem C09_commission_once (reporter : String) (rate reward : Int) (os : List O
     · simp only [Bool.not_false, Bool.true_and, ne_eq, hc, not_false_eq_true, decide_true, if_true]
       simp only [creditSum, List.map_append, List.sum_append_int, List.map_cons, List.map_nil, List.sum_cons, List.sum_nil] at *
       rw [hsum]; simp; omega
+
+/-- **C09 (the credits sum to the reward, to within 10^-18 per credit).** When the recorded total is the
+sum of the recorded origins (as the report snapshot guarantees), the commission rate is in [0, 1] and the
+reward non-negative, the credits of one `DivvyingTips` call differ from the reward by at most one raw unit
+(10^-18 loya) per token origin — for every reward, rate, number of origins and amounts. -/
+theorem C09_divvy_sum (reporter : String) (rate reward : Int) (os : List Origin) (total : Int)
+    (hr0 : 0 ≤ rate) (hr1 : rate ≤ Dec.prec) (hrew : 0 ≤ reward) (ht : 0 < total)
+    (ha : ∀ o ∈ os, 0 ≤ o.amount) (hsum : amtSum os = total) :
+    creditSum (divvy reporter rate reward os total) - reward ≤ os.length ∧
+    reward - creditSum (divvy reporter rate reward os total) ≤ os.length := by
+  have hc0 : 0 ≤ Dec.mul reward rate := Dec.chopRound_nonneg (Int.mul_nonneg hrew hr0)
+  have hc1 : Dec.mul reward rate ≤ reward :=
+    Dec.chopRound_le_of_le_mul (Int.mul_nonneg hrew hr0) (Int.mul_le_mul_of_nonneg_left hr1 hrew)
+  have hn : 0 ≤ reward - Dec.mul reward rate := by omega
+  rw [C09_commission_once]
+  obtain ⟨h1, h2⟩ := shareSum_bound (reward - Dec.mul reward rate) total hn ht os ha
+  rw [hsum] at h1 h2
+  generalize shareSum (reward - Dec.mul reward rate) total os = S at *
+  generalize Dec.mul reward rate = c at *
+  generalize (os.length : Int) = n at *
+  constructor <;> nlinarith [h1, h2, ht]
 
 /-- **C09 (no negative credit).** For a commission rate in [0, 1], a non-negative reward, non-negative
 recorded amounts and a positive recorded total, every credit is non-negative. -/
